@@ -243,7 +243,7 @@ PROPS["C16"] = dict(
     level="proof",
     verus=["c16_labels", "c16_resources", "c16_store", "c16_engine", "c12_domain", "c11_cosmetic_parse", "c11_locations", "c12_offsets"],
     labels=["C16.", "C18.resources.", "C12.domain.", "C17.cosmetic.parse.", "C18.cosmetic.parse.", "C12.offsets.", "C12.host.", "C12.scheme."],
-    witness=["c16_generic_parse.rs", "c16_scoping.rs", "c18_args.rs"],
+    witness=["c16_generic_parse.rs", "c16_scoping.rs", "c18_args.rs", "c16_model.rs"],
     kani=[],
     trusted=["memchr/memrchr (shims)", "seahash uninterpreted",
              "CosmeticFilter::parse is under contract in unit c11_cosmetic_parse for its frame (markers, +js form, generic restrictions, double negation) with parse_after_sharp_nonscript and validate_css_selector uninterpreted; the location list is under contract in unit c11_locations: the per-entry closure of locations_before_sharp (R7 lift of the closure body: kind and text of every entry) and parse_before_sharp (each of the four lists holds the hashes of the entries of its kind; idna and seahash uninterpreted, sort = a permutation), joined by the R5 materialisation `entries = split(',').filter_map(closure)` which is trusted; add_generic_filter is under contract in unit c17_generic (uninterpreted relation here); the generichide lookup for the page (Engine::url_cosmetic_resources, Blocker::check_generic_hide) is under contract in unit c16_engine with Request::new, NetworkFilterList::check and hostname_cosmetic_resources entering by their contracts",
@@ -325,7 +325,7 @@ PROPS["C15"] = dict(
     verus=["c15_csp", "c01_lookup", "c05_optimizer", "c03_apply_options", "c03_option_text", "c01_index", "c04_partition", "c12_request"],
     labels=["C15.", "C01.check_all.", "C05.select.", "C03.apply_options.", "C03.option_text.", "C01.index.", "C06.add_filter.", "C04.new.csp", "C12.preparsed.", "C12.new."] + MASK,
     kani=[],
-    witness=["c15_csp.rs"],
+    witness=["c15_csp.rs", "c15_model.rs"],
     trusted=["R6: the `difference` + comma-join tail is lifted: its contract is 'None iff nothing remains, else the directive set of the string is enabled minus disabled'",
              "&str / String obey the hash key model (vstd axiom)", "csp option parsing: the option text table (unit c03_option_text: `csp` with an empty value carries no directive) and the option application (unit c03_apply_options) are under contract, the rest of NetworkFilter::parse is not; how csp rules are filed by token / domain (NetworkFilterList::add_filter, unit c01_index) is under contract"],
     assumptions=[],
@@ -344,7 +344,7 @@ PROPS["C17"] = dict(
     verus=["c17_generic", "c16_store", "c11_cosmetic_parse"],
     labels=["C17.", "C16.rule.hidden_generic_rule.", "C16.add_filter."],
     kani=[],
-    witness=["c17_keys.rs", "c16_generic_parse.rs"],
+    witness=["c17_keys.rs", "c16_generic_parse.rs", "c16_model.rs"],
     trusted=["key_from_selector (three regexes + CSS unescaping): key_spec is uninterpreted; assumed only that a key starts with the selector's own first character. Its behaviour on concrete selectors is covered by witness inputs replayed on the real crate (vf/witness/c17_keys.rs), not by a contract",
              "CosmeticFilter::plain_css_selector (uninterpreted)",
              "R7 lift: `if let Some(b) = map.get_mut(&k) { b.push(v) } else { map.insert(k, vec![v]) }` = append under a key (HashMap::get_mut has no vstd specification)",
